@@ -273,6 +273,51 @@ def job_container(res, rng, sc, w):
                 res.nt("container|%s|%s|%d" % (mode, frm == ".", len(ignored_all)))
 
 
+def job_two_scopes(res, rng, sc, w, tool):
+    """Two roots, each below its own ignore file: every root must be filtered by its own rules (and only by them)."""
+    home = runner.make_home(sc, config="")
+    want = {}
+    fname = {"hg": ".hgignore", "docker": ".dockerignore"}[tool]
+    for name in ("ctxA", "ctxB"):
+        d = os.path.join(w, name)
+        os.mkdir(d)
+        dirs = gen_repo_tree(rng, d)
+        if tool == "hg":
+            os.mkdir(os.path.join(d, ".hg"))
+            lines = hg_lines(rng, dirs)
+        else:
+            lines = gen_patterns(rng, dirs, "docker")
+        with open(os.path.join(d, fname), "w") as f:
+            f.write("\n".join(lines) + "\n")
+        rels = [e.rel for e in tree.snapshot(d) if not (e.rel == ".hg" or e.rel.startswith(".hg/"))]
+        ign = set(r for r in rels if (hg_ignored(lines, r) if tool == "hg" else docker_ignored(lines, r)))
+        want[name] = (set(rels) - ign, ign, lines)
+    opt = {"hg": "hgignore", "docker": "dockerignore"}[tool]
+    for order in (("ctxA", "ctxB"), ("ctxB", "ctxA")):
+        for o2 in (opt, ""):
+            query = "path from %s %s, %s %s into list" % (order[0], opt, order[1], o2)
+            r = runner.run([query], cwd=w, home=home)
+            res.ev()
+            ctx = {"query": query, "ignore_files": {k: v[2] for k, v in want.items()}, "result": r.brief()}
+            if r.verdict != "ok" or r.rc != 0 or r.err:
+                if r.verdict in ("ok", "busy", "blocked"):
+                    res.viol("`%s`: %s status %s stderr %r" % (query, r.verdict, r.rc, r.err[:160]), ctx)
+                continue
+            got = set(x for x in r.rows() if "/.hg" not in x)
+            exp = set(order[0] + "/" + x for x in want[order[0]][0])
+            exp |= set(order[1] + "/" + x for x in (want[order[1]][0] if o2 else want[order[1]][0] | want[order[1]][1]))
+            exp = set(x for x in exp if "/.hg" not in x)
+            if got != exp:
+                ctx["wrongly_listed"] = sorted(got - exp)[:8]
+                ctx["wrongly_omitted"] = sorted(exp - got)[:8]
+                res.viol("%s with two roots in different ignore scopes (%s): %d entries wrongly omitted (e.g. %s), %d wrongly listed (e.g. %s)" % (
+                    tool, query, len(exp - got), sorted(exp - got)[:2], len(got - exp), sorted(got - exp)[:2]), ctx)
+                continue
+            res.cover("spelling_mode", "two-scopes %s %s" % (tool, "both" if o2 else "first-only"))
+            if want[order[0]][1] or want[order[1]][1]:
+                res.nt("two-scopes|%s|%s|%s" % (tool, order, o2))
+
+
 def run_job(job):
     res = JobResult()
     rng = random.Random(job["seed"])
@@ -280,6 +325,9 @@ def run_job(job):
     try:
         w = runner.work_dir(sc)
         tool = job["tool"]
+        if tool in ("hg-two-scopes", "docker-two-scopes"):
+            job_two_scopes(res, rng, sc, w, tool.split("-")[0])
+            return res
         if tool == "git-container":
             job_container(res, rng, sc, w)
             return res
@@ -436,4 +484,4 @@ def main(chk):
 
 
 def job_tools(chk):
-    return ["git", "hg", "docker", "git", "hg", "docker", "git-container"]
+    return ["git", "hg", "docker", "git", "hg", "docker", "git-container", "hg-two-scopes", "docker-two-scopes"]
